@@ -6,9 +6,11 @@ HOOKS = ['-DURCU_VERIF_RCU_QS_ACTIVE_ATTEMPTS=2', '-DURCU_VERIF_URCU_WAIT_ATTEMP
 
 
 def gp(name, flavor, threads, R, tso=0, nested=0, unreg=0, membarrier=1, faults=0, live=False, safe=True, desc='', wit=None, unwind=4,
-       live_R=None, timeout=1500, futex_enosys=0, handlers=None, dyn=0, reg_slots=None):
+       live_R=None, timeout=3000, futex_enosys=0, handlers=None, dyn=0, reg_slots=None, tso_slots=None):
     regs = [('reg', i + 1) for i, t in enumerate(threads) if t == 'reader' or (reg_slots and (i + 1) in reg_slots)]
     extra = {'membarrier': membarrier, 'futex_enosys': futex_enosys, 'mem_gb': 12}
+    if tso_slots:
+        extra['tso_slots'] = tso_slots
     if handlers:
         extra['handlers'] = [dict(fn='sig_handler', slot=k) for k in handlers]
     return conc(name, 'c01_gp.c', threads, R, cflags=['-DFLAVOR=%d' % FL[flavor], '-DNESTED=%d' % nested, '-DUNREG=%d' % unreg, '-DDYN=%d' % dyn] + HOOKS,
@@ -20,16 +22,19 @@ def obligations(tier):
     q = tier == 'quick'
     obs = []
     W1 = ['reader section overlaps the grace period', 'reader ran before the updater']
-    for fl in (('mb', 'memb', 'qsbr') if q else ('mb', 'memb', 'qsbr', 'bp')):
+    # quick tier: what fits the 15-minute budget of a per-change check (mb 9-10 min, qsbr 3 min, run side by side)
+    for fl in (('mb', 'qsbr') if q else ('mb', 'memb', 'qsbr')):
         obs += gp('%s_1r' % fl, fl, ['updater', 'reader'], 3,
                   desc='%s: updater (unpublish, synchronize_rcu, free) vs one reader section; ghost-interval, litmus and reclamation oracles' % fl,
                   wit=W1 + ([] if fl == 'qsbr' else ['reader ran after the grace period']))
-    obs += gp('mb_2callers', 'mb', ['updater', 'updater2', 'reader'], 3,
+    if not q:
+      obs += gp('mb_2callers', 'mb', ['updater', 'reader', 'updater2'], 2,
               desc='mb: two concurrent synchronize_rcu callers (the second may be merged into the first one\'s grace period) and one reader: '
                    'each caller\'s return waits for the sections open at ITS call', wit=['second synchronize_rcu caller returned'])
-    obs += gp('memb_1r_tso1', 'memb', ['updater', 'reader'], 3, tso=1,
+    if not q:
+      obs += gp('memb_1r_tso1', 'memb', ['updater', 'reader'], 3, tso=1, tso_slots=[2],
               desc='memb with sys_membarrier under x86-TSO (store buffer depth 1): the reader side has only compiler barriers, the updater\'s '
-                   'membarrier must flush the reader\'s buffered ctr store before each scan', wit=W1)
+                   'membarrier must flush the reader\'s buffered ctr store before each scan (store buffering modelled for the reader thread; the updater is SC)', wit=W1)
     if not q:
         obs += gp('mb_1r_tso1', 'mb', ['updater', 'reader'], 3, tso=1, desc='mb under x86-TSO depth 1', wit=W1)
         obs += gp('memb_fallback_1r_tso1', 'memb', ['updater', 'reader'], 3, tso=1, membarrier=0,
